@@ -16,7 +16,7 @@
 #include "vf_rec.h"
 #include "vf_ref.h"
 
-enum { K_STREAMS = VC_USER, K_DECODER_CALLS, K_FIN, K_NED, K_ERR, K_BRUTE_STREAMS, K_BRUTE_FRAGS, K_LONG_STREAMS, K_WAITS, K_TERMINAL };
+enum { K_STREAMS = VC_USER, K_DECODER_CALLS, K_FIN, K_NED, K_ERR, K_BRUTE_STREAMS, K_BRUTE_FRAGS, K_LONG_STREAMS, K_WAITS, K_TERMINAL, K_HUGE_TAILS };
 
 #define MAXN 1400
 #define MAXTOK 16
@@ -243,6 +243,24 @@ static void seq_rec(unsigned depth, unsigned k, const vf_tok* toks, size_t nt) {
     if (depth <= brute_k && i == 0) brute_force();
   }
   S.n = n0;
+  /* stream + a definite string head whose declared length cannot be supplied (2^32-1, 2^63-1, 2^63, 2^63+2, 2^64-16, 2^64-1) + 0, 1 or 4 payload bytes: the
+   * client must be told to wait, with a `required` above what is buffered, whatever the fragmentation - never handed an event or a read beyond the buffer */
+  if (depth < seq_k || depth <= 1) {
+    static const uint8_t HUGE_[][9] = {{0x5a, 0xff, 0xff, 0xff, 0xff}, {0x7b, 0x7f, 0xff, 0xff, 0xff, 0xff, 0xff, 0xff, 0xff}, {0x5b, 0x80, 0, 0, 0, 0, 0, 0, 0},
+                                       {0x7b, 0x80, 0, 0, 0, 0, 0, 0, 2}, {0x5b, 0xff, 0xff, 0xff, 0xff, 0xff, 0xff, 0xff, 0xf0}, {0x7b, 0xff, 0xff, 0xff, 0xff, 0xff, 0xff, 0xff, 0xff}};
+    static const unsigned PAY[] = {0, 1, 4};
+    for (unsigned i = 0; i < 6; i++)
+      for (unsigned pi = 0; pi < 3; pi++) {
+        size_t hl = i == 0 ? 5 : 9;
+        memcpy(S.b + n0, HUGE_[i], hl);
+        for (unsigned q = 0; q < PAY[pi]; q++) S.b[n0 + hl + q] = (uint8_t)('p' + q);
+        S.n = n0 + hl + PAY[pi];
+        vf_cnt(K_HUGE_TAILS, 1);
+        emit_stream(true);
+        if (depth <= brute_k && S.n <= brute_n) brute_force();
+      }
+    S.n = n0;
+  }
   /* stream truncated inside its last head: ends_partial */
   if (depth >= 1) {
     size_t last = 0;
@@ -325,7 +343,7 @@ static void replay(const char* tag, const uint8_t* d, size_t len) {
 struct vf_check vf_the_check = {
     .property = "C09",
     .level = "model_checking",
-    .rule = "streams = every sequence of <= k decodable heads of Sigma, each also followed by one of 3 reserved bytes and truncated at every offset inside its last head, "
+    .rule = "streams = every sequence of <= k decodable heads of Sigma, each also followed by one of 3 reserved bytes and truncated at every offset inside its last head, and (sequences shorter than k) followed by one of 6 string heads of unsatisfiable declared length (2^32-1 .. 2^64-1, both sides of 2^63) with 0, 1 or 4 payload bytes, "
             "plus 24 long streams (payloads of 23/24/255/256/300 bytes). For each stream the client's state graph (consumed, buffered, outstanding required) is searched to "
             "fixpoint: evaluations = states visited, transitions = fragment arrivals (every size) + client runs; the real decoder is called once per reachable (consumed, buffered) "
             "pair and judged against the reference tokenisation; traces_validated_against_impl = real decoder calls. Cross-check: the unmemoised client loop over all 2^(n-1) "
@@ -337,6 +355,6 @@ struct vf_check vf_the_check = {
                     "client model: buffers arriving bytes, calls the decoder whenever at least `required` bytes are buffered, advances by `read` on FINISHED, stops on ERROR"},
     .counters = {[VC_EVAL] = "client_states_visited", [VC_DISTINCT] = "distinct_streams", [VC_TRANS] = "client_transitions", [VC_TRACES] = "real_decoder_calls",
                  [K_STREAMS] = "streams", [K_DECODER_CALLS] = "decoder_calls_in_state_search", [K_FIN] = "expected_FINISHED", [K_NED] = "expected_NEDATA", [K_ERR] = "expected_ERROR",
-                 [K_BRUTE_STREAMS] = "brute_force_streams", [K_BRUTE_FRAGS] = "fragmentations_run_end_to_end", [K_LONG_STREAMS] = "long_streams", [K_WAITS] = "wait_states",
+                 [K_BRUTE_STREAMS] = "brute_force_streams", [K_BRUTE_FRAGS] = "fragmentations_run_end_to_end", [K_LONG_STREAMS] = "long_streams", [K_HUGE_TAILS] = "streams_ending_in_a_string_head_of_unsatisfiable_length", [K_WAITS] = "wait_states",
                  [K_TERMINAL] = "streams_ending_on_item_boundary_fully_delivered"},
     .init = init, .units = units, .unit = unit, .replay = replay, .states_counter = VC_EVAL + 1};
